@@ -673,8 +673,21 @@ def rule_ag_reg(repo, col):
         return out, default
     fw = repo.func(TABLE, 'Table.to_hdf5')
     fr = repo.func(TABLE, 'Table.from_hdf5')
-    wreg, wdef = registry(fw, 'formatter')
-    rreg, rdef = registry(fr, 'parser')
+
+    def registry_var(func, fallback):
+        # the local that holds the registry: a defaultdict with a lambda
+        for n in ast.walk(func):
+            if isinstance(n, ast.Assign) and isinstance(
+                    n.targets[0], ast.Name) and isinstance(
+                    n.value, ast.Call) and \
+                    call_name(n.value) == 'defaultdict' and n.value.args \
+                    and isinstance(n.value.args[0], ast.Lambda):
+                return n.targets[0].id
+        return fallback
+    wvar = registry_var(fw, 'formatter')
+    rvar = registry_var(fr, 'parser')
+    wreg, wdef = registry(fw, wvar)
+    rreg, rdef = registry(fr, rvar)
     col.check(wdef == 'general_formatter' and rdef == 'general_parser', rule,
               TABLE, 'Table.to_hdf5', 'defaults', None,
               'general_formatter / general_parser are the defaults',
@@ -695,8 +708,8 @@ def rule_ag_reg(repo, col):
                       "category '%s' is formatted by %s but parsed by %s"
                       % (k, pair[0], pair[1]))
     # user overrides are honoured on both sides
-    for func, var, arg in ((fw, 'formatter', 'format_fs'),
-                           (fr, 'parser', 'parse_fs')):
+    for func, var, arg in ((fw, wvar, 'format_fs'),
+                           (fr, rvar, 'parse_fs')):
         upd = any(isinstance(n, ast.Call) and
                   dotted(n.func) == '%s.update' % var and n.args and
                   dotted(n.args[0]) == arg for n in ast.walk(func))
@@ -705,7 +718,7 @@ def rule_ag_reg(repo, col):
                   'the registry', '%s is ignored' % arg)
     # the registry is applied per category
     used = any(isinstance(n, ast.Call) and isinstance(n.func, ast.Subscript)
-               and dotted(n.func.value) == 'formatter'
+               and dotted(n.func.value) == wvar
                for n in ast.walk(fw))
     col.check(used, rule, TABLE, 'Table.to_hdf5', 'apply', fw,
               'formatter[category](...) is called per category',
